@@ -31,7 +31,7 @@ ASSUMPTIONS = [
 ]
 SHARED_KINDS = ["y-abs", "y-abs-rho", "y-cov"]
 # chi2 members that take part in shared sources (a source can be shared by members of one data size only)
-SHARERS = {"xy_ab", "xy_ac", "idx_ad", "xy_ab_x", "idx_ad_b", "hist_chi2", "idx_ad5"}
+SHARERS = {"xy_ab", "xy_ac", "idx_ad", "xy_ab_x", "idx_ad_b", "hist_chi2", "idx_ad5", "idx_ad_relm"}
 BASE = ["xy_ab", "xy_ac", "idx_ad", "xy_bc", "xy_ab_x", "xy_ab_noerr", "xy_ab_relm", "hist", "unbinned"]
 SINGLE_AXIS = ["idx_ad_b", "hist_chi2", "idx_ad5"]  # + idx_ad: pairs of single-axis chi2 members of one size
 ASYM_ROUTES = ["fit:asym", "fit+prop", "fit+report", "fit+result"]
@@ -45,11 +45,13 @@ def member_lists(tier):
         out += [list(p) for p in itertools.permutations(core, 3)]
         out += [list(p) for p in itertools.permutations(["idx_ad", "xy_ab", "idx_ad_b"], 3)]
         out += [list(p) for p in itertools.permutations(["hist_chi2", "hist", "idx_ad5"], 3)]
+        out += [list(p) for p in itertools.permutations(["idx_ad_relm", "xy_ab", "idx_ad_b"], 2)]
     else:
         out += [list(p) for p in itertools.permutations(BASE, 2)]
         out += [list(p) for p in itertools.permutations(["idx_ad", "idx_ad_b"], 2)]
         out += [list(p) for p in itertools.permutations(["hist_chi2", "idx_ad5"], 2)]
         out += [["hist_chi2", "hist"], ["xy_ab", "hist_chi2"], ["idx_ad_b", "xy_ac"]]
+        out += [list(p) for p in itertools.permutations(["idx_ad_relm", "xy_ab"], 2)] + [["idx_ad_relm", "idx_ad_b"]]
         out += [["xy_ab", "xy_bc", "xy_ac"], ["xy_ac", "hist", "xy_ab_x"], ["idx_ad", "xy_ab", "xy_ac"], ["xy_ab", "unbinned", "idx_ad"]]
         out += [["idx_ad", "xy_ab", "idx_ad_b"], ["hist_chi2", "unbinned", "idx_ad5"], ["xy_ab", "xy_ac", "hist_chi2"]]
     return out
@@ -267,10 +269,22 @@ def _shared_op(shared):
     return ("shared", shared[0], "sh0", shared[1]) + tuple(shared[2:])
 
 
-def run_history(ml, shared, seq, fit, order, res=None, post=None):
-    """fit: False | True (plain do_fit) | one of ASYM_ROUTES; post: one more operation behind the fit.
-    -> (violations of the unfitted prefix, violations at / behind the fit)"""
-    mw = MultiWorld(ml)
+def pre_variants(ml):
+    """members used on their own before the multi-fit is built: a fit of one member, new values on one member (each read afterwards)"""
+    out = []
+    for i in range(len(ml)):
+        w = MultiWorld([ml[i]]).members[0]
+        out.append(((i, ("fit",)),))
+        out.append(((i, ("setall", [round(x * 1.25 + 0.2, 6) for x in w.pv.values()])),))
+    if len(ml) >= 2:
+        out.append(((0, ("fit",)), (len(ml) - 1, ("fit",))))
+    return out
+
+
+def run_history(ml, shared, seq, fit, order, res=None, post=None, pre_ops=()):
+    """fit: False | True (plain do_fit) | one of ASYM_ROUTES; post: one more operation behind the fit; pre_ops: member operations before
+    the multi-fit is built.  -> (violations of the unfitted prefix, violations at / behind the fit)"""
+    mw = MultiWorld(ml, pre=pre_ops)
     pre, viol = [], []
     cur = pre
     try:
@@ -355,7 +369,7 @@ def jobs(tier, seed):
 
 def bound(tier, seed):
     return (
-        "%d ordered member lists (length 1-%d from a pool of 12 members: xy(a,b), xy(a,c), indexed(a,d) x 2, xy(b,c), xy(a,b)+x errors, xy without "
+        "%d ordered member lists (length 1-%d from a pool of 13 members (incl. an indexed member with model-referenced sources): xy(a,b), xy(a,c), indexed(a,d) x 2, xy(b,c), xy(a,b)+x errors, xy without "
         "errors, xy with model-relative errors, nll histogram, unbinned, chi2 histogram, indexed of its size) x shared sources (3 y kinds + x; axis omitted "
         "and given for single-axis members) on every subset >= 2 of equal-size chi2 sharers x operation sequences of length <= 2 (<= 1 with shared "
         "sources) over set / set_all / fix / release / constraint on the multi-fit and set / set_all / fix / do_fit on the members x {unfitted, fitted}; "
@@ -377,9 +391,11 @@ def run_job(spec):
     res = JobResult()
     order = "multi-first" if par == 0 else "members-first"
 
-    def record(shared, seq, fit, post, viol):
+    def record(shared, seq, fit, post, viol, pre_ops=()):
         res.executions += 1
-        key = (tuple(ml), repr(shared), seq, fit, post)
+        key = (tuple(ml), repr(shared), seq, fit, post, pre_ops)
+        if pre_ops:
+            res.facts["member-used-before"] += 1
         res.state(repr(key))
         if len(ml) > 1:
             res.nontriv(repr(key))
@@ -400,9 +416,10 @@ def run_job(spec):
         if post is not None:
             res.facts["post-fit-op"] += 1
         for o, e, a, m in viol:
-            hist = [dict(members=ml, shared=list(shared) if shared else None, fit=fit, order=order, post=[post[0], list(post[1])] if post else None)]
+            hist = [dict(members=ml, shared=list(shared) if shared else None, fit=fit, order=order, post=[post[0], list(post[1])] if post else None, pre=[[i, list(o)] for i, o in pre_ops])]
             hist += [[op[0], list(op[1])] for op in seq]
-            sig = "%s|%s|%s|%s" % (
+            sig = "%s%s|%s|%s|%s" % (
+                "".join("[f%d.%s first]" % (i, o[0]) for i, o in pre_ops),
                 "+".join(ml),
                 "none" if not shared else "%s@%s%s" % (shared[0], shared[1], "" if len(shared) < 3 else "/" + shared[2]),
                 ";".join("%s.%s" % (op[0], op[1][0]) for op in seq),
@@ -427,6 +444,13 @@ def run_job(spec):
             if shared is None or tier != "quick":
                 for post in post_ops(ml, shared):
                     record(shared, seq, True, post, run_history(ml, shared, seq, True, order, res, post=post)[1])
+            # members that were used on their own (fitted / given values, and read) before the multi-fit was built
+            if len(ml) >= 2 and (shared is None or tier != "quick"):
+                for pre_ops in pre_variants(ml):
+                    p, viol = run_history(ml, shared, (), True, order, res, pre_ops=pre_ops)
+                    record(shared, (), False, None, p, pre_ops)
+                    if not p:
+                        record(shared, (), True, None, viol, pre_ops)
     res.sample(dict(members=ml, shared_configs=len(shared_configs(ml, tier)), order=order))
     return res.as_dict()
 
@@ -435,7 +459,8 @@ def replay(history):
     h = history[0]
     seq = [(o[0], tuple(o[1])) for o in history[1:]]
     post = (h["post"][0], tuple(h["post"][1])) if h.get("post") else None
-    pre, viol = run_history(h["members"], tuple(h["shared"]) if h["shared"] else None, seq, h["fit"], h["order"], post=post)
+    pre_ops = tuple((i, tuple(tuple(x) if isinstance(x, list) and x and not isinstance(x[0], (int, float)) else x for x in o)) for i, o in h.get("pre") or [])
+    pre, viol = run_history(h["members"], tuple(h["shared"]) if h["shared"] else None, seq, h["fit"], h["order"], post=post, pre_ops=pre_ops)
     return [dict(observable=o, expected=e, actual=a, mode=m) for o, e, a, m in pre + viol]
 
 
@@ -453,3 +478,4 @@ def vacuity_guards(tot, tier):
     yield "set_all / do_fit issued on a member explored", tot.facts.get("member-op:setall", 0) > 0 and tot.facts.get("member-op:fit", 0) > 0
     yield "asymmetric uncertainties requested behind a plain fit", tot.facts.get("asymmetric:fit+prop", 0) > 0
     yield "operations behind the fit explored", tot.facts.get("post-fit-op", 0) > 0
+    yield "members used on their own before the multi-fit was built", tot.facts.get("member-used-before", 0) > 0
